@@ -381,6 +381,9 @@ func (a *pwaligner) backTrack_SW() {
 	a.end1 = a.maxi
 	a.end2 = a.maxj
 
+	// The counts are those of this backtrack only (Alignment() may be called several times)
+	a.length, a.nbgaps, a.nbmatches, a.nbmismatches = 0, 0, 0, 0
+
 	i = a.maxi
 	j = a.maxj
 
